@@ -38,15 +38,45 @@ Fixpoint bool_leaves (p : prop) : bool :=
   | Node _ _ _ _ _ _ _ ch => forallb bool_leaves ch
   end.
 
-(* evaluation with overrides: a node named in d, or whose own bounds are constant, takes
-   that value instead of the computed one (C03).  d maps ids to point values. *)
-Fixpoint eval_over (d : list (ident * Z)) (p : prop) : Z :=
+(* all nodes and leaves of a tree, with repetitions *)
+Fixpoint nodes (p : prop) : list prop :=
+  p :: match p with Var _ _ _ => [] | Node _ _ _ _ _ _ _ ch => flat_map nodes ch end.
+
+(* C03/C06/C07 spec: the value of a proposition under a leaf environment and an interpretation
+   d.  A node whose own variable is fixed by d (or by its declared bounds) takes that fixed
+   value instead of the computed one; non-constant bounds given for a node do not fix it. *)
+Fixpoint eval_d (d : interp) (env : ident -> Z) (p : prop) : Z :=
   match p with
-  | Var i lo hi => match alookup i d with Some z => z | None => lo end
+  | Var i _ _ => env i
   | Node _ i _ lo hi s v ch =>
-      match alookup i d with
-      | Some z => z
-      | None => if lo =? hi then lo
-                else if v <=? s * zsum (map (eval_over d) ch) then 1 else 0
-      end
+      let b := dbounds d i lo hi in
+      if fst b =? snd b then fst b
+      else if v <=? s * zsum (map (eval_d d env) ch) then 1 else 0
+  end.
+
+(* the leaf environment respects the interval the interpretation (or the declaration) gives *)
+Fixpoint refines (d : interp) (env : ident -> Z) (p : prop) : Prop :=
+  match p with
+  | Var i lo hi => fst (dbounds d i lo hi) <= env i <= snd (dbounds d i lo hi)
+  | Node _ _ _ _ _ _ _ ch => (fix go l := match l with [] => True | x :: xs => refines d env x /\ go xs end) ch
+  end.
+
+(* the interpretation fixes every leaf to a point *)
+Fixpoint total (d : interp) (p : prop) : Prop :=
+  match p with
+  | Var i lo hi => fst (dbounds d i lo hi) = snd (dbounds d i lo hi)
+  | Node _ _ _ _ _ _ _ ch => (fix go l := match l with [] => True | x :: xs => total d x /\ go xs end) ch
+  end.
+
+(* C08 spec: fixed variables (constant bounds) stand for their constants *)
+Fixpoint eval_c (env : ident -> Z) (p : prop) : Z :=
+  match p with
+  | Var i lo hi => if lo =? hi then lo else env i
+  | Node _ i _ lo hi s v ch =>
+      if lo =? hi then lo else if v <=? s * zsum (map (eval_c env) ch) then 1 else 0
+  end.
+Fixpoint inb_c (env : ident -> Z) (p : prop) : Prop :=
+  match p with
+  | Var i lo hi => lo <= hi /\ (lo < hi -> lo <= env i <= hi)
+  | Node _ _ _ _ _ _ _ ch => (fix go l := match l with [] => True | x :: xs => inb_c env x /\ go xs end) ch
   end.
